@@ -411,7 +411,7 @@ func init() {
 		ID:        "C12",
 		Level:     "model_checking",
 		Technique: "bounded exhaustive enumeration of base programs x insertion position x journal instruction/operand set x fork x static flag; each program is executed on the real interpreter next to its pop-variant and the complete debug-tracer streams (stack, memory, pc, return data, refund, gas offsets) are compared event by event",
-		Rule: "base programs = all sequences of length <= L over the 28-macro interacting alphabet (SEQ without GAS) behind a registration block; one journal instruction (13 well-formed operand sets over the 8 opcodes, 20 malformed operand sets covering each malformed class) inserted at every position; all 13 fork configurations; normal and static entry. P' = same program with the instruction replaced by one POP per operand (P is padded with 1-gas JUMPDESTs to the same layout). Well-formed: every event after the instruction equal (gas shifted by the constant fee-n-1 at depth 1, equal in callees), results, logs, state delta, refund equal; fee equal to the canonical fee and non-zero everywhere. Malformed: frame halts at the instruction, all gas consumed, no effects. non-trivial = distinct cases in which the journal instruction was reached",
+		Rule:      "base programs = all sequences of length <= L over the 28-macro interacting alphabet (SEQ without GAS) behind a registration block; one journal instruction (13 well-formed operand sets over the 8 opcodes, 20 malformed operand sets covering each malformed class) inserted at every position; all 13 fork configurations; normal and static entry. P' = same program with the instruction replaced by one POP per operand (P is padded with 1-gas JUMPDESTs to the same layout). Well-formed: every event after the instruction equal (gas shifted by the constant fee-n-1 at depth 1, equal in callees), results, logs, state delta, refund equal; fee equal to the canonical fee and non-zero everywhere. Malformed: frame halts at the instruction, all gas consumed, no effects. non-trivial = distinct cases in which the journal instruction was reached",
 		Assumptions: []string{
 			"base programs longer than L and operand values outside the listed sets are not covered",
 			"GAS is excluded from the base alphabet because it legitimately observes the fee",
@@ -425,66 +425,71 @@ func init() {
 			L := c12L(w.Tier)
 			alpha := c12Alphabet()
 			steps := c12Steps()
-			for f := world.Frontier; f < world.NumForks; f++ {
-				f := f
-				ok := true
-				// the four forks with distinct instruction-table lineages get the full length, the others L-1
-				fl := L
-				if f != world.Frontier && f != world.Berlin && f != world.Shanghai && f != world.Cancun {
-					fl = L - 1
-				}
-				gen.ForEachSeq(len(alpha), fl, func(seq []int) {
-					if !ok {
-						return
+			for l := 0; l <= L; l++ {
+				for f := world.Frontier; f < world.NumForks; f++ {
+					f := f
+					ok := true
+					// the four forks with distinct instruction-table lineages get the full length, the others L-1
+					fl := L
+					if f != world.Frontier && f != world.Berlin && f != world.Shanghai && f != world.Cancun {
+						fl = L - 1
 					}
-					for at := 0; at <= len(seq); at++ {
-						if !w.Mine() {
-							continue
-						}
-						if w.Expired() {
-							ok = false
+					if l > fl {
+						continue
+					}
+					gen.ForEachSeqLen(len(alpha), l, func(seq []int) {
+						if !ok {
 							return
 						}
-						for six := range steps {
-							for _, static := range []bool{false, true} {
-								if static && !w.Thorough() && (len(seq)+six)%3 != 0 {
-									continue // quick: a third of the static variants
-								}
-								c := &c12Case{Fork: f, Static: static, Seq: append([]int{}, seq...), At: at, StepIx: six, L: L}
-								c.Note = fmt.Sprintf("%s static=%v seq=[%s] at=%d step=%q", f, static, seqName(alpha, seq), at, steps[six].Name)
-								sig, detail := c12Run(c)
-								w.Evals++
-								w.Transitions++
-								h := fw.Hash(c.Note)
-								w.State(h)
-								if detail == "unreached" {
-									w.Skipped++
-								} else {
-									w.Nontrivial(h)
-								}
-								if w.Evals%50021 == 1 {
-									w.Sample(c)
-								}
-								if sig == "harness" {
-									w.Notes = append(w.Notes, "HARNESS ERROR: C12 "+detail+" :: "+c.Note)
-									ok = false
-									return
-								}
-								if sig != "" {
-									for i := 0; i < 4; i++ {
-										if s2, _ := c12Run(c); s2 != sig {
-											w.Notes = append(w.Notes, "UNREPRODUCED: C12 violation did not reproduce: "+c.Note)
-											return
-										}
+						for at := 0; at <= len(seq); at++ {
+							if !w.Mine() {
+								continue
+							}
+							if w.Expired() {
+								ok = false
+								return
+							}
+							for six := range steps {
+								for _, static := range []bool{false, true} {
+									if static && !w.Thorough() && (len(seq)+six)%3 != 0 {
+										continue // quick: a third of the static variants
 									}
-									w.Violate(sig, detail+"\n"+c.Note, c)
+									c := &c12Case{Fork: f, Static: static, Seq: append([]int{}, seq...), At: at, StepIx: six, L: L}
+									c.Note = fmt.Sprintf("%s static=%v seq=[%s] at=%d step=%q", f, static, seqName(alpha, seq), at, steps[six].Name)
+									sig, detail := c12Run(c)
+									w.Evals++
+									w.Transitions++
+									h := fw.Hash(c.Note)
+									w.State(h)
+									if detail == "unreached" {
+										w.Skipped++
+									} else {
+										w.Nontrivial(h)
+									}
+									if w.Evals%50021 == 1 {
+										w.Sample(c)
+									}
+									if sig == "harness" {
+										w.Notes = append(w.Notes, "HARNESS ERROR: C12 "+detail+" :: "+c.Note)
+										ok = false
+										return
+									}
+									if sig != "" {
+										for i := 0; i < 4; i++ {
+											if s2, _ := c12Run(c); s2 != sig {
+												w.Notes = append(w.Notes, "UNREPRODUCED: C12 violation did not reproduce: "+c.Note)
+												return
+											}
+										}
+										w.Violate(sig, detail+"\n"+c.Note, c)
+									}
 								}
 							}
 						}
+					})
+					if !ok {
+						return
 					}
-				})
-				if !ok {
-					return
 				}
 			}
 		},
